@@ -201,8 +201,14 @@ def gen_table_channel(ctx, dur, force=None, fixed_only=False, reach=False):
     if rng.random() < 0.6 or n == 1 or reach:
         pts[-1] = steps
         pts.sort()
-    while len(pts) >= 2 and pts[-1] == pts[-2]:     # no zero-length final segment (closed end point ambiguous)
+    # entries at the final time: one, two (zero-length final hold / jump segment; proved equal to the denotation on the
+    # closed interval) or - rarely - three (known finding `table-final-triple`: _validate_input drops the middle one)
+    r = rng.random()
+    max_final = 3 if r < 0.03 else 2 if r < 0.45 else 1
+    while pts.count(pts[-1]) > max_final:
         del pts[-2]
+    if pts.count(pts[-1]) >= 3:
+        ctx.counter['final_triple'] = 1
     n = len(pts)
     entries = []
     prev_t, prev_v = None, None
@@ -513,7 +519,10 @@ def gen_case(rng, max_depth=5, kinds=None, chan_choices=None):
             targets.add(t)
         elif r < 0.45:
             cm.append([ch, ch])
-    return {'pt': pt, 'params': params, 'cm': cm}
+    case = {'pt': pt, 'params': params, 'cm': cm}
+    if ctx.counter.get('final_triple'):
+        case['final_triple'] = True
+    return case
 
 
 # ---- constant-folding stream ----------------------------------------------------------------------------------------
